@@ -473,7 +473,10 @@ func (sa *Application) timeoutPlaceholderProcessing() {
 					continue
 				}
 				pendingRelease = append(pendingRelease, alloc)
-				sa.placeholderData[alloc.taskGroupName].TimedOut++
+				// only placeholder asks are tracked per task group, the pending asks can include real asks
+				if phData, ok := sa.placeholderData[alloc.taskGroupName]; ok {
+					phData.TimedOut++
+				}
 			}
 		}
 		log.Log(log.SchedApplication).Info("Placeholder timeout, releasing allocated and pending placeholders",
